@@ -570,13 +570,15 @@ PC_RULE = {'title': 32768, 'desc': 32768, 'reg': 32768, 'mid': 32770, 'instr': 3
 B, E = 'BEGIN:', ':END'
 
 
-def make_skool(place, text):
+def make_skool(place, text, lead=False):
     slot = {p: 'plain %s text' % p for p in PLACEMENTS}
     if place != 'ref':
         slot[place] = B + text + E
+    # with lead=True the probed entry is not the first one of the file (it has a previous and a next entry)
+    slot['lead'] = '; Lead\n;\n; plain text\n;\n; A plain register text\nc32760 NOP         ; plain\n 32761 RET         ; plain\n\n' if lead else ''
     return '''@start
 @org
-; %(title)s
+%(lead)s; %(title)s
 ;
 ; %(desc)s
 ;
@@ -594,7 +596,7 @@ b40000 DEFB 1,2,3,4,5,6,7,8
 
 
 MEM_CLI = dict(MEM0)
-MEM_CLI.update({32768: 0x3E, 32769: 1, 32770: 0x06, 32771: 2, 32772: 0xC9})
+MEM_CLI.update({32768: 0x3E, 32769: 1, 32770: 0x06, 32771: 2, 32772: 0xC9, 32760: 0x00, 32761: 0xC9})
 MODE_OPTS = {0: [], 10: ['-D'], 16: ['-H']}
 CASE_OPTS = {0: [], 1: ['-l'], 2: ['-u']}
 
@@ -624,7 +626,7 @@ def cli_oracle(case, rec=None):
                 return
             exp = collapse(b['expected'])
             built0 = built0 or b
-            sc.write('t.skool', make_skool(place, text).encode('utf-8'))
+            sc.write('t.skool', make_skool(place, text, case.get('lead', False)).encode('utf-8'))
             tools = []
             if place != 'ref':
                 tools.append(('skool2asm', opts + ['t.skool'], None))
@@ -671,7 +673,7 @@ def force_def_flags(node):
     return node
 
 
-cli_cases = st.builds(lambda a, m: {'kind': 'cli', 'ast': a, 'mode': list(m)}, cli_unit, mode_st)
+cli_cases = st.builds(lambda l, a, m: {'kind': 'cli', 'ast': a, 'mode': list(m), 'lead': l}, st.booleans(), cli_unit, mode_st)
 
 
 # ---------------------------------------------------------------------------
